@@ -15,8 +15,7 @@ every content of the uninitialised memory (`pad`: the 61 bytes after the sentine
 
 Standing hypotheses: as in `Props/C01.lean` (`0 < W ≤ 63`, bytes `< 256`, `pad.length = 61`,
 `raw.length = setUpCap bs.length`, `bs.length + 4 < 2^32`, and — because the proof goes through the simulation of the
-reference reader — the number hypothesis of C01: `ExpSmall bs` (written exponents below 100000, or number tokens of at most
-9600 bytes — true for every text of at most 9600 bytes —: known finding F6 lives outside; the former per-input assumption `NumberCorrectOn bs` has been discharged, see `Props/C01.lean`).  In particular the theorems now cover texts such as `[1.5.3]`, where the number model's
+reference reader — nothing about numbers (known finding F6 is fixed in the code, `numberOK_all`; the former per-input assumption `NumberCorrectOn bs` has been discharged, see `Props/C01.lean`).  In particular the theorems now cover texts such as `[1.5.3]`, where the number model's
 *value* is not the reference's (`C04_native_guard_needed`): the parse still returns, without fault, with an error).
 
 Heap ledger: `Doc.mallocs` / `Doc.frees` count the blocks obtained and released through the allocator and
@@ -31,9 +30,9 @@ open Sonic.Gen Sonic.Spec Sonic.Model.Parse Sonic.Proofs.Parse
 /-- **No fault**: `GenericDocument::Parse` returns (success or error) on arbitrary bytes -/
 theorem C02_no_fault (W : Nat) (hW : 0 < W) (hW' : W ≤ 63) (pad bs : List Nat) (raw : List (Option Node)) (d : Doc)
     (hbs : ∀ x ∈ bs, x < 256) (hpad : ∀ x ∈ pad, x < 256) (hlen : pad.length = 61)
-    (hraw : raw.length = setUpCap bs.length) (hL : bs.length + 4 < 2 ^ 32) (hexp : ExpSmall bs) :
+    (hraw : raw.length = setUpCap bs.length) (hL : bs.length + 4 < 2 ^ 32) :
     ∃ r, parseDoc W pad raw d bs = .ok r := by
-  have h := parseDoc_spec ⟨hW, hW', hbs, hpad, hlen, hL⟩ (numberOK_of_exp hexp) hraw d
+  have h := parseDoc_spec ⟨hW, hW', hbs, hpad, hlen, hL⟩ (numberOK_all (by omega)) hraw d
   cases hj : Json.parse bs with
   | ok v => rw [hj] at h; obtain ⟨r, hr, _⟩ := h; exact ⟨r, hr⟩
   | error e => rw [hj] at h; obtain ⟨r, hr, _⟩ := h; exact ⟨r, hr⟩
@@ -43,10 +42,10 @@ theorem C02_no_fault (W : Nat) (hW : 0 < W) (hW' : W ≤ 63) (pad bs : List Nat)
     and the buffer keeps its size -/
 theorem C02_reads_bounded (W : Nat) (hW : 0 < W) (hW' : W ≤ 63) (pad bs : List Nat) (raw : List (Option Node)) (d : Doc)
     (hbs : ∀ x ∈ bs, x < 256) (hpad : ∀ x ∈ pad, x < 256) (hlen : pad.length = 61)
-    (hraw : raw.length = setUpCap bs.length) (hL : bs.length + 4 < 2 ^ 32) (hexp : ExpSmall bs) :
+    (hraw : raw.length = setUpCap bs.length) (hL : bs.length + 4 < 2 ^ 32) :
     parseDoc W pad raw d bs ≠ .error .oob ∧ parseDoc W pad raw d bs ≠ .error .str ∧
       parseDoc W pad raw d bs ≠ .error .fuel ∧ parseDoc W pad raw d bs ≠ .error .assert := by
-  obtain ⟨r, hr⟩ := C02_no_fault W hW hW' pad bs raw d hbs hpad hlen hraw hL hexp
+  obtain ⟨r, hr⟩ := C02_no_fault W hW hW' pad bs raw d hbs hpad hlen hraw hL
   rw [hr]
   exact ⟨by simp, by simp, by simp, by simp⟩
 
@@ -60,11 +59,11 @@ example : (match parseDoc 32 (List.replicate 60 0xAA) (List.replicate 16 none) D
     there is none).  On success exactly one node (the root) is on the stack. -/
 theorem C02_stack_bounded (W : Nat) (hW : 0 < W) (hW' : W ≤ 63) (pad bs : List Nat) (raw : List (Option Node))
     (hbs : ∀ x ∈ bs, x < 256) (hpad : ∀ x ∈ pad, x < 256) (hlen : pad.length = 61)
-    (hraw : raw.length = setUpCap bs.length) (hL : bs.length + 4 < 2 ^ 32) (hexp : ExpSmall bs) :
+    (hraw : raw.length = setUpCap bs.length) (hL : bs.length + 4 < 2 ^ 32) :
     ∃ s, parserParse W (paddedBuf bs pad) bs.length (Sax.setUp bs.length raw) = .ok s ∧
       s.sax.np ≤ s.sax.cap ∧ s.sax.cap = (if bs.length / 2 + 2 < 16 then 16 else bs.length / 2 + 2) ∧
       s.sax.st.length = s.sax.cap ∧ (s.err = 0 → s.sax.np = 1) := by
-  have h := parserParse_spec ⟨hW, hW', hbs, hpad, hlen, hL⟩ (numberOK_of_exp hexp) hraw
+  have h := parserParse_spec ⟨hW, hW', hbs, hpad, hlen, hL⟩ (numberOK_all (by omega)) hraw
   cases hj : Json.parse bs with
   | ok v =>
     rw [hj] at h
@@ -90,10 +89,10 @@ theorem C02_node_full (sax : Sax) (h : ¬ sax.np < sax.cap) (n : Node) :
     constructed (type `kNull`) nodes. -/
 theorem C02_teardown_init (W : Nat) (hW : 0 < W) (hW' : W ≤ 63) (pad bs : List Nat) (raw : List (Option Node))
     (hbs : ∀ x ∈ bs, x < 256) (hpad : ∀ x ∈ pad, x < 256) (hlen : pad.length = 61)
-    (hraw : raw.length = setUpCap bs.length) (hL : bs.length + 4 < 2 ^ 32) (hexp : ExpSmall bs) :
+    (hraw : raw.length = setUpCap bs.length) (hL : bs.length + 4 < 2 ^ 32) :
     ∃ s ns, parserParse W (paddedBuf bs pad) bs.length (Sax.setUp bs.length raw) = .ok s ∧
       StackNodes s.sax ns ∧ s.sax.tearDown = .ok (allocsList ns) ∧ s.sax.mallocs = allocsList ns := by
-  have h := parserParse_spec ⟨hW, hW', hbs, hpad, hlen, hL⟩ (numberOK_of_exp hexp) hraw
+  have h := parserParse_spec ⟨hW, hW', hbs, hpad, hlen, hL⟩ (numberOK_all (by omega)) hraw
   cases hj : Json.parse bs with
   | ok v =>
     rw [hj] at h
@@ -111,17 +110,17 @@ theorem C02_teardown_init (W : Nat) (hW : 0 < W) (hW' : W ≤ 63) (pad bs : List
     the same document does not fault either. -/
 theorem C02_reusable (W : Nat) (hW : 0 < W) (hW' : W ≤ 63) (pad bs : List Nat) (raw : List (Option Node)) (d : Doc)
     (hbs : ∀ x ∈ bs, x < 256) (hpad : ∀ x ∈ pad, x < 256) (hlen : pad.length = 61)
-    (hraw : raw.length = setUpCap bs.length) (hL : bs.length + 4 < 2 ^ 32) (hexp : ExpSmall bs) :
+    (hraw : raw.length = setUpCap bs.length) (hL : bs.length + 4 < 2 ^ 32) :
     ∃ r, parseDoc W pad raw d bs = .ok r ∧ r.doc.value.isSome = true ∧ (r.err ≠ 0 → r.doc.root = .null) ∧
       (Balanced d → Balanced r.doc) ∧
       (∀ (W₂ : Nat) (pad₂ bs₂ : List Nat) (raw₂ : List (Option Node)), 0 < W₂ → W₂ ≤ 63 → (∀ x ∈ bs₂, x < 256) →
         (∀ x ∈ pad₂, x < 256) → pad₂.length = 61 → raw₂.length = setUpCap bs₂.length → bs₂.length + 4 < 2 ^ 32 →
-        ExpSmall bs₂ → ∃ r₂, parseDoc W₂ pad₂ raw₂ r.doc bs₂ = .ok r₂) := by
-  have h := parseDoc_spec ⟨hW, hW', hbs, hpad, hlen, hL⟩ (numberOK_of_exp hexp) hraw d
+        ∃ r₂, parseDoc W₂ pad₂ raw₂ r.doc bs₂ = .ok r₂) := by
+  have h := parseDoc_spec ⟨hW, hW', hbs, hpad, hlen, hL⟩ (numberOK_all (by omega)) hraw d
   have hagain : ∀ (dd : Doc) (W₂ : Nat) (pad₂ bs₂ : List Nat) (raw₂ : List (Option Node)), 0 < W₂ → W₂ ≤ 63 →
       (∀ x ∈ bs₂, x < 256) → (∀ x ∈ pad₂, x < 256) → pad₂.length = 61 → raw₂.length = setUpCap bs₂.length →
-      bs₂.length + 4 < 2 ^ 32 → ExpSmall bs₂ → ∃ r₂, parseDoc W₂ pad₂ raw₂ dd bs₂ = .ok r₂ :=
-    fun dd W₂ pad₂ bs₂ raw₂ a b c e f g i j => C02_no_fault W₂ a b pad₂ bs₂ raw₂ dd c e f g i j
+      bs₂.length + 4 < 2 ^ 32 → ∃ r₂, parseDoc W₂ pad₂ raw₂ dd bs₂ = .ok r₂ :=
+    fun dd W₂ pad₂ bs₂ raw₂ a b c e f g i => C02_no_fault W₂ a b pad₂ bs₂ raw₂ dd c e f g i
   cases hj : Json.parse bs with
   | ok v =>
     rw [hj] at h
@@ -136,10 +135,10 @@ theorem C02_reusable (W : Nat) (hW : 0 < W) (hW' : W ≤ 63) (pad bs : List Nat)
     released exactly what was obtained -/
 theorem C02_no_leak (W : Nat) (hW : 0 < W) (hW' : W ≤ 63) (pad bs : List Nat) (raw : List (Option Node)) (d : Doc)
     (hbs : ∀ x ∈ bs, x < 256) (hpad : ∀ x ∈ pad, x < 256) (hlen : pad.length = 61)
-    (hraw : raw.length = setUpCap bs.length) (hL : bs.length + 4 < 2 ^ 32) (hexp : ExpSmall bs)
+    (hraw : raw.length = setUpCap bs.length) (hL : bs.length + 4 < 2 ^ 32)
     (hd : Balanced d) :
     ∃ r, parseDoc W pad raw d bs = .ok r ∧ r.doc.destroyDom.mallocs = r.doc.destroyDom.frees := by
-  obtain ⟨r, hr, _, _, hbal, _⟩ := C02_reusable W hW hW' pad bs raw d hbs hpad hlen hraw hL hexp
+  obtain ⟨r, hr, _, _, hbal, _⟩ := C02_reusable W hW hW' pad bs raw d hbs hpad hlen hraw hL
   exact ⟨r, hr, balanced_destroy (hbal hd)⟩
 
 /-! ## non-vacuity -/
@@ -158,6 +157,6 @@ example : errOff exFail = some (2, 5) ∧ treeOf exFail = some "n" ∧ leakOf ex
 example : ∃ r, parseDoc 16 runPad (List.replicate 16 (some (.uint 3))) Doc.fresh
     [0x5B, 0x22, 0x61, 0x5C, 0x6E, 0x22, 0x2C, 0x7B, 0x7D, 0x2C, 0x6E, 0x75, 0x6C, 0x6C, 0x5D, 0x20] = .ok r :=
   C02_no_fault 16 (by decide) (by decide) runPad _ _ Doc.fresh (by decide) (by decide) (by decide) (by decide)
-    (by decide) (expSmall_of_check _ (by decide +kernel))
+    (by decide)
 
 end Sonic.Props.C02
